@@ -85,7 +85,12 @@ func c08Observe(c DCfg, fs []DFrame) (det []bool, deep []string, sink []string) 
 	return det, deep, sk.trace
 }
 
-func runC08(c c08Case) (string, string) {
+func runC08(c c08Case) (sig, msg string) {
+	defer func() {
+		if p := recover(); p != nil {
+			sig, msg = "C08:"+c.Kind+":detector-panic", fmt.Sprintf("%+v: the detector or processor panicked: %v | A=%s | B=%s", c.Cfg, p, fmtStream(c.A), fmtStream(c.B))
+		}
+	}()
 	d1, p1, s1 := c08Observe(c.Cfg, c.A)
 	d2, p2, s2 := c08Observe(c.Cfg, c.B)
 	what := "edge-border"
